@@ -281,6 +281,34 @@ def sc_load(ctx, a, seam):
     return sdl.load(a["path"])
 
 
+@op("sc.mangle")
+def sc_mangle(ctx, a, seam):
+    """a foreign writer stores a DAMAGED schematic file (one element in the middle lost a key, got an unknown type
+    or a broken value): loading it fails part-way or yields an unspecified drawing - nothing is promised about
+    that load, everything is promised about the loads after it"""
+    import json as _json
+    doc = _json.loads(ctx.arg(a["text"]).s)
+    els = doc.get("simple_circuit", [])
+    if els:
+        i = min(len(els) - 1, max(0, int(a.get("pos", 0.5) * len(els))))
+        how = a.get("how", "drop_values")
+        if how == "drop_values":
+            els[i].pop("values", None)
+        elif how == "bad_segments":
+            els[i].setdefault("values", {})["segments"] = [{"type": "Segment", "values": {"nope": 1}}]
+        elif how == "drop_name":
+            els[i].pop("name", None)
+        elif how == "bad_circuit":
+            doc["circuit"] = {"components": [{"id": els[i].get("name", "x")}]}
+        else:
+            els[i]["values"]["_userparams"] = 7
+    data = _json.dumps(doc).encode("utf-8")
+    ctx.disk.files[a["path"]] = bytearray(data)
+    ctx.disk.touch(a["path"])
+    ctx.disk.state[a["path"]] = ("bot", "foreign-damaged", ctx.disk.step)
+    return len(els)
+
+
 # --------------------------------------------------------------------------- declarative lists
 def build_twin(data):
     """the programmatic construction equivalent to a declarative element list:
